@@ -613,21 +613,19 @@ class Slice:
             for b in self.body.blocks:
                 for i, s in enumerate(b.stmts):
                     if s["k"] == "assign":
-                        d[s["place"]["l"]].append(("assign", b.idx, s))
+                        d[s["place"]["l"]].append(("assign", b.idx, s, tuple(place_fields(s["place"]))))
                 t = b.term
                 if t["k"] == "call":
-                    d[t["dest"]["l"]].append(("call", b.idx, t))
-                    # &mut arguments may be written by the callee: treat the call as a def of
-                    # locals passed by mutable reference is too coarse; skipped.
-                if t["k"] == "yield":
-                    pass
+                    d[t["dest"]["l"]].append(("call", b.idx, t, tuple(place_fields(t["dest"]))))
             self._alldefs = d
         return self._alldefs
 
-    def run(self, op, max_nodes=2000):
+    def run(self, op, max_nodes=4000):
+        """Field-sensitive on the first level: a read of `x.f` only follows definitions of
+        `x` as a whole or of places overlapping `x.f`."""
         body = self.body
         res = {"args": set(), "consts": [], "calls": [], "upvars": set(), "locals": set(), "fields": set(),
-               "statics": set()}
+               "statics": set(), "binops": []}
         todo = []
 
         def push_op(o):
@@ -641,9 +639,10 @@ class Slice:
                 push_place(pl)
 
         def push_place(pl):
-            for f in place_fields(pl):
+            fs = tuple(place_fields(pl))
+            for f in fs:
                 res["fields"].add(f)
-            todo.append(pl["l"])
+            todo.append((pl["l"], fs))
             # closure upvar: _1.<i> in a closure body
             if pl["l"] == 1 and body.is_closure and pl["p"]:
                 for e in pl["p"]:
@@ -652,20 +651,27 @@ class Slice:
                         break
             for e in pl["p"]:
                 if isinstance(e, dict) and "idx" in e:
-                    todo.append(e["idx"])
+                    todo.append((e["idx"], ()))
+
+        def overlap(a, b):
+            n = min(len(a), len(b))
+            return a[:n] == b[:n]
 
         push_op(op)
         defs = self.alldefs()
         seen = set()
+        seen_calls = set()
         while todo and len(seen) < max_nodes:
-            l = todo.pop()
-            if l in seen:
+            l, fs = todo.pop()
+            if (l, fs) in seen:
                 continue
-            seen.add(l)
+            seen.add((l, fs))
             res["locals"].add(l)
             if 1 <= l <= body.arg_count:
                 res["args"].add(l)
-            for kind, bb, payload in defs.get(l, []):
+            for kind, bb, payload, dfs in defs.get(l, []):
+                if not overlap(dfs, fs):
+                    continue
                 if kind == "assign":
                     rv = payload["rv"]
                     k = rv["k"]
@@ -674,9 +680,11 @@ class Slice:
                     elif k in ("ref", "rawptr", "discr"):
                         push_place(rv["place"])
                     elif k == "binop":
+                        res["binops"].append(rv["op"])
                         push_op(rv["a"])
                         push_op(rv["b"])
                     elif k == "unop":
+                        res["binops"].append(rv["op"])
                         push_op(rv["a"])
                     elif k == "aggr":
                         for o in rv["ops"]:
@@ -686,7 +694,9 @@ class Slice:
                 else:
                     c = payload["callee"]
                     key = callee_key(c)
-                    res["calls"].append((key, bb, payload))
+                    if (key, bb) not in seen_calls:
+                        seen_calls.add((key, bb))
+                        res["calls"].append((key, bb, payload))
                     if self.through_calls and key not in self.stop_calls:
                         for a in payload["args"]:
                             push_op(a)
@@ -753,7 +763,18 @@ def switch_guards(body, target_bb, unwind=False, dom=None, _depth=3):
                         g = dict(g)
                         g["via"] = S
                         out.append(g)
-    return out
+    # several facts about the same switch hold conjunctively: intersect their label sets
+    merged = {}
+    order = []
+    for g in out:
+        if g["bb"] in merged:
+            merged[g["bb"]]["allowed"] = merged[g["bb"]]["allowed"] & g["allowed"]
+            if "via" in g:
+                merged[g["bb"]]["via"] = g["via"]
+        else:
+            merged[g["bb"]] = dict(g)
+            order.append(g["bb"])
+    return [merged[b] for b in order]
 
 
 def place_root_slice(body, place, **kw):
@@ -764,4 +785,69 @@ def guard_src_place(src):
     """The place whose discriminant / value a guard source inspects, if any."""
     if src.get("kind") in ("discr", "place"):
         return src.get("place")
+    return None
+
+
+# ------------------------------------------------------------------ small query helpers
+def field_assigns(body, suffix):
+    """[(bb, idx, stmt)] assignments whose destination's last field name ends with `suffix`."""
+    out = []
+    for b in body.blocks:
+        for i, s in enumerate(b.stmts):
+            if s["k"] == "assign":
+                fs = place_fields(s["place"])
+                if fs and fs[-1].endswith(suffix) and isinstance(s["place"]["p"][-1], dict) and "f" in s["place"]["p"][-1]:
+                    out.append((b.idx, i, s))
+    return out
+
+
+def calls_where(body, pred):
+    return [(bb, t) for bb, t in body.calls() if pred(callee_key(t["callee"]), t)]
+
+
+def calls_to(body, *suffixes):
+    """Calls whose resolved-or-written generic-free path equals or ends with `::suffix`."""
+    out = []
+    for bb, t in body.calls():
+        ks = callee_paths(t["callee"])
+        if any(k == s or k.endswith("::" + s) for k in ks for s in suffixes):
+            out.append((bb, t))
+    return out
+
+
+def who_calls(prog, *suffixes, crate=None):
+    out = []
+    for b in prog.bodies:
+        if crate and b.crate != crate:
+            continue
+        for bb, t in calls_to(b, *suffixes):
+            out.append((b, bb, t))
+    return out
+
+
+def stmt_blocks(items):
+    """Blocks of (bb, idx, stmt) items plus whether any block has more than one."""
+    bbs = [bb for bb, _, _ in items]
+    return sorted(set(bbs)), len(bbs) != len(set(bbs))
+
+
+def normal_exits(body):
+    return body.exits(("return",))
+
+
+def direct_field_copy(body, op, depth=6):
+    """If `op` is (through plain copies/moves of single-definition locals) a read of a field
+    place, return the field list of that place; else None."""
+    while depth:
+        depth -= 1
+        pl = op_place(op)
+        if pl is None:
+            return None
+        fs = place_fields(pl)
+        if fs:
+            return fs
+        d = body.unique_def(pl["l"])
+        if not d or d[2] != "assign" or d[3]["rv"]["k"] != "use":
+            return None
+        op = d[3]["rv"]["op"]
     return None
